@@ -219,7 +219,31 @@ func RunCase(t *testing.T, bind *Binding, c *Case, tmp string) ([]model.Violatio
 		sp := &RunSpec{SpecData: c.Specs[i], Prog: c.Prog, TmpDir: tmp}
 		obs = append(obs, Run(t, bind, sp))
 	}
-	return model.Judge(c.Property, c.Prog, EffectiveCfg(c.Prog), obs), obs
+	vs := model.Judge(c.Property, c.Prog, EffectiveCfg(c.Prog), obs)
+	if twin := twinOf(c); twin != nil {
+		for i := range c.Specs {
+			fo := Run(t, bind, &RunSpec{SpecData: c.Specs[i], Prog: twin, TmpDir: tmp})
+			for _, x := range model.CheckTwins(twin, EffectiveCfg(twin), fo, obs[i]) {
+				x.Runs = []int{i}
+				vs = append(vs, x)
+			}
+		}
+	}
+	return vs, obs
+}
+
+// twinOf decodes the flat twin program stored with a C11 case.
+func twinOf(c *Case) *sdl.Program {
+	raw, ok := c.Extra["twin"]
+	if !ok {
+		return nil
+	}
+	b, _ := json.Marshal(raw)
+	var p sdl.Program
+	if json.Unmarshal(b, &p) != nil || len(p.Types) == 0 {
+		return nil
+	}
+	return &p
 }
 
 // EffectiveCfg is the flattened configuration the program's sources are meant to produce
@@ -272,6 +296,22 @@ func runCheck(t *testing.T, bind *Binding, job *Job, res *Result) {
 			obs = append(obs, r.Obs)
 		}
 		vs := model.Judge(job.Property, p, EffectiveCfg(p), obs)
+		if p.Twin != "" && job.Property == "C11" {
+			// the flat twin runs under the same specs (same program seed => same schedules)
+			for _, q := range progs {
+				if q.ID != p.Twin {
+					continue
+				}
+				for i, r := range recs {
+					fo := Run(t, bind, &RunSpec{SpecData: r.Spec, Prog: q, TmpDir: job.TmpDir})
+					acc.Runs++
+					for _, x := range model.CheckTwins(q, EffectiveCfg(q), fo, r.Obs) {
+						x.Runs = []int{i}
+						vs = append(vs, x)
+					}
+				}
+			}
+		}
 		if d := os.Getenv("VERIF_DUMP"); d != "" {
 			dumpRuns(d, p, obs, vs)
 		}
@@ -304,6 +344,19 @@ type RunRec struct {
 // form (recorded picks), re-runs them in-process and minimises.
 func buildFinding(t *testing.T, bind *Binding, job *Job, p *sdl.Program, recs []RunRec, x model.Violation) Finding {
 	c := &Case{Property: job.Property, Engine: "startsim", Prog: p}
+	if p.Twin != "" && job.Property == "C11" {
+		var progs []*sdl.Program
+		if loadJSON(job.Batch, &progs) == nil {
+			for _, q := range progs {
+				if q.ID == p.Twin {
+					b, _ := json.Marshal(q)
+					var m map[string]any
+					_ = json.Unmarshal(b, &m)
+					c.Extra = map[string]any{"twin": m}
+				}
+			}
+		}
+	}
 	idx := x.Runs
 	if len(idx) == 0 {
 		for i := range recs {
